@@ -112,7 +112,16 @@ def get_text_from(path, encoding=None) -> str:
                 # All of the bytes weren't decodeable, maybe the initial
                 # sequence is (as above)?
                 path.seek(position)  # Reset after the previous .read():
-                s = decode_by_char(path)
+                if isinstance(path, io.TextIOBase) and hasattr(path, "buffer"):
+                    # A text-mode file decodes a whole chunk at a time, so
+                    # it fails as soon as a chunk contains an undecodable
+                    # byte, long before the text in front of that byte
+                    # has been handed out: read the bytes underneath.
+                    s = decode_by_char(
+                        path.buffer, encoding=(path.encoding or "utf-8")
+                    )
+                else:
+                    s = decode_by_char(path)
 
         else:
             # Not a path, not an already-opened file.
